@@ -180,7 +180,8 @@ def rule_r5(ck, prog, rule='C20.R5'):
                 m = sf.nodes[j]
                 if m['k'] == 'call':
                     names.add(strip_targs(m.get('c', '')).rsplit('::', 1)[-1])
-        if not {'data', 'size'} <= names:
+        via_conversion = any(nm.startswith('operator basic_string') or nm.startswith('operator std::') or nm == 'operator string' for nm in names)
+        if not ({'data', 'size'} <= names or {'data', 'length'} <= names or {'begin', 'end'} <= names or via_conversion):
             bad = (r, 'the hashed string is not built from (data(), size())')
     conds = [n for n in f.nodes if n['k'] in ('if', 'cond', 'SwitchStmt')]
     if bad is None and conds:
@@ -232,15 +233,19 @@ def rule_r3(ck, prog, rule='C20.R3'):
     lens = []
     for n in f.nodes:
         c = comparison(f, n['i'])
-        if c and c[0] == '==':
-            names = [strip_targs(f.nodes[i].get('c', '')).rsplit('::', 1)[-1] for s in (c[1], c[2]) for i in f.subtree(s) if f.nodes[i]['k'] == 'call']
-            ids = {f.nodes[i].get('id') for s in (c[1], c[2]) for i in f.subtree(s) if f.nodes[i]['k'] == 'ref'}
+        if c and c[0] in ('==', '!='):
+            from .common import subtree_through_locals
+            sub = sorted({i for s_ in (c[1], c[2]) for i in list(subtree_through_locals(f, s_)) + [s_]})
+            names = [strip_targs(f.nodes[i].get('c', '')).rsplit('::', 1)[-1] for i in sub if f.nodes[i]['k'] == 'call']
+            ids = {f.nodes[i].get('id') for i in sub if f.nodes[i]['k'] == 'ref'}
             if names.count('length') + names.count('size') == 2 and ids >= {p['id'] for p in f.params}:
-                lens.append(n)
+                lens.append((n, c[0]))
     if not lens:
         ck.violation(rule, f, 'equality-needs-equal-length', None, 'operator== never compares the two lengths')
     else:
-        pins = {lens[0]['i']: False}
+        # scenario "the lengths differ": `a == b` is false, `a != b` is true (lengths held in named locals are followed)
+        pins = {ln['i']: (op_ == '!=') for (ln, op_) in lens}
+        lens = [ln for (ln, _o) in lens]
         bad = None
         # explore: every reachable return must be definitely false when the lengths differ
         stack = [(g.entry, ())]
@@ -531,6 +536,14 @@ def rule_r6(ck, prog, rule='C20.R6'):
                 break
             used.append(ids[0])
         int_params = [i for i, p in enumerate(f.params) if 'unsigned long' in p['t'] or 'size_t' in p['t']]
+        # an overload may hand its leading (pos, count) pair on to another compare overload instead of calling substr itself
+        for n in f.nodes:
+            if n['k'] == 'call' and strip_targs(n.get('c', '')).endswith('string_view::compare') and n is not None and len(n.get('args', [])) >= 2:
+                args = [strip_casts(f, a) for a in n['args'][:2]]
+                ids = [pidx.get(a.get('id')) if a['k'] == 'ref' else None for a in args]
+                on = strip_casts(f, n['obj']) if n.get('obj') is not None else None
+                if ids == [0, 1] and on is not None and on['k'] == 'this':
+                    used.append(0)
         if why is None:
             # every position parameter is consumed by a substr (a count that only bounds a C string is consumed by its constructor)
             pos_like = [i for i in int_params if i + 1 in int_params]
